@@ -216,7 +216,7 @@ impl Out {
 
 // ------------------------------------------------------------------------------------------ the sound domain
 
-const OP_CHARS: &str = "=<>+-*/%(),.;:!@#^&|~{}§€\u{a0}→";
+const OP_CHARS: &str = "=<>+-*/%(),.;:!@#^&|~{}]§€\u{a0}→";
 const WORD_EXTRA: &str = "éß中";
 
 fn word_start(c: char) -> bool {
@@ -259,7 +259,7 @@ enum K {
 /// under the documented rules (placeholder outside quoted text, `$n` numbered on Postgres, doubled
 /// mark = one literal mark). Construction, not rejection:
 ///  * text is cleaned per segment kind (a word is letters/digits/`_`/`$` starting with a letter or digit;
-///    operator text has no quote delimiter, bracket, backslash, `_`, `?`, `$`; a quoted body has its closing
+///    operator text has no quote delimiter, opening bracket, backslash, `_`, `?`, `$`; a quoted body has its closing
 ///    delimiter only doubled or backslash-escaped and a backslash only as an escape prefix);
 ///  * Postgres: `$n`, `$$` and `$name` directly after a word, a `$n` or a `$name` would be read as part of
 ///    that word (`a$1`, `$1$2` are identifiers / one number token) -> whitespace is inserted; a word directly
@@ -707,6 +707,7 @@ fn seg() -> impl Strategy<Value = Seg> {
     prop_oneof![
         3 => "[a-zA-Z0-9é][a-zA-Z0-9_$é]{0,4}".prop_map(Seg::Word),
         3 => proptest::collection::vec(proptest::sample::select(OP_CHARS.chars().collect::<Vec<_>>()), 1..3).prop_map(|v| Seg::Op(v.into_iter().collect())),
+        1 => Just(Seg::Op("]".into())),
         3 => proptest::sample::select(vec![" ", "  ", "\t", "\n", "\r\n"]).prop_map(|s| Seg::Ws(s.to_string())),
         5 => (proptest::sample::select(vec!['\'', '"', '`', '[']), proptest::collection::vec(piece(), 0..6)).prop_map(|(delim, body)| Seg::Quoted { delim, body }),
         7 => (0u8..8).prop_map(Seg::Ph),
